@@ -79,16 +79,18 @@ impl Effect for Delay {
 		self.feedback.update(dt * input.len() as f64, info);
 		self.mix.update(dt * input.len() as f64, info);
 
+		// the parameters move once over the whole call, also when the delay line is
+		// shorter than the call and the call is worked off in several passes
+		let num_frames = input.len();
+		let mut frames_done = 0;
 		for input in input.chunks_mut(self.buffer.len()) {
-			let num_frames = input.len();
-
 			// read from the beginning of the buffer and apply effects and feedback gain
 			self.temp_buffer[..input.len()].copy_from_slice(&self.buffer[..input.len()]);
 			for effect in &mut self.feedback_effects {
 				effect.process(&mut self.temp_buffer[..input.len()], dt, info);
 			}
 			for (i, frame) in self.temp_buffer[..input.len()].iter_mut().enumerate() {
-				let time_in_chunk = (i + 1) as f64 / num_frames as f64;
+				let time_in_chunk = (frames_done + i + 1) as f64 / num_frames as f64;
 				let feedback = self.feedback.interpolated_value(time_in_chunk);
 				*frame *= feedback.as_amplitude();
 			}
@@ -106,10 +108,11 @@ impl Effect for Delay {
 
 			// output mix of input and read buffer
 			for (i, frame) in input.iter_mut().enumerate() {
-				let time_in_chunk = (i + 1) as f64 / num_frames as f64;
+				let time_in_chunk = (frames_done + i + 1) as f64 / num_frames as f64;
 				let mix = self.mix.interpolated_value(time_in_chunk).0.clamp(0.0, 1.0);
 				*frame = self.temp_buffer[i] * mix.sqrt() + *frame * (1.0 - mix).sqrt()
 			}
+			frames_done += input.len();
 		}
 	}
 }
